@@ -1,6 +1,7 @@
 // Engine B command line: batch | dump | shrink | replay
 #include "simb.h"
 #include <algorithm>
+#include <clocale>
 #include <cstdlib>
 #include <fstream>
 #include <functional>
@@ -15,8 +16,8 @@ uint64_t g_index = 0;
 
 std::string plan_to_text(const Plan &p) {
     char b[200]; std::string s;
-    std::snprintf(b, sizeof b, "knobs seed=%llu pool_seed=%llu sched_seed=%llu mean_gap=%u max_preemptions=%u victim=%u victim_op=%u runner=%u offset=%u threads=%zu\n", (unsigned long long)p.seed,
-                  (unsigned long long)p.pool_seed, (unsigned long long)p.sched_seed, p.mean_gap, p.max_preemptions, p.victim, p.victim_op, p.runner, p.offset, p.programs.size()); s += b;
+    std::snprintf(b, sizeof b, "knobs seed=%llu pool_seed=%llu sched_seed=%llu mean_gap=%u max_preemptions=%u locale=%u victim=%u victim_op=%u runner=%u offset=%u threads=%zu\n", (unsigned long long)p.seed,
+                  (unsigned long long)p.pool_seed, (unsigned long long)p.sched_seed, p.mean_gap, p.max_preemptions, p.locale, p.victim, p.victim_op, p.runner, p.offset, p.programs.size()); s += b;
     for (size_t t = 0; t < p.programs.size(); t++)
         for (const BOp &o : p.programs[t]) { std::snprintf(b, sizeof b, "op thread=%zu kind=%s a=%u b=%u c=%u\n", t + 1, bop_name(o.kind), o.a, o.b, o.c); s += b; }
     for (const Switch &w : p.switches) { std::snprintf(b, sizeof b, "switch event=%llu thread=%u\n", (unsigned long long)w.event, w.thread); s += b; }
@@ -39,7 +40,7 @@ bool plan_from_text(const std::string &t, Plan &p, std::string &err) {
         if (!line.compare(0, 6, "knobs ")) {
             if (kv(l, "seed", v)) p.seed = (uint64_t)v; if (kv(l, "pool_seed", v)) p.pool_seed = (uint64_t)v; if (kv(l, "sched_seed", v)) p.sched_seed = (uint64_t)v;
             if (kv(l, "mean_gap", v)) p.mean_gap = (uint32_t)v; if (kv(l, "max_preemptions", v)) p.max_preemptions = (uint32_t)v; if (kv(l, "threads", v)) p.programs.resize((size_t)v);
-            if (kv(l, "victim", v)) p.victim = (uint32_t)v; if (kv(l, "victim_op", v)) p.victim_op = (uint32_t)v; if (kv(l, "runner", v)) p.runner = (uint32_t)v; if (kv(l, "offset", v)) p.offset = (uint32_t)v;
+            if (kv(l, "locale", v)) p.locale = (uint32_t)v; if (kv(l, "victim", v)) p.victim = (uint32_t)v; if (kv(l, "victim_op", v)) p.victim_op = (uint32_t)v; if (kv(l, "runner", v)) p.runner = (uint32_t)v; if (kv(l, "offset", v)) p.offset = (uint32_t)v;
         } else if (!line.compare(0, 3, "op ")) {
             BOp o; size_t th = 1; if (kv(l, "thread", v)) th = (size_t)v;
             const char *k = std::strstr(l, " kind="); if (!k) { err = "op without kind"; return false; }
@@ -63,6 +64,7 @@ Plan gen_plan(uint64_t runseed) {
     unsigned strategy = r.below(10);      // 0 serial, 1-2 rare, 3-4 medium, 5-7 frequent, 8-9 window-targeted
     p.mean_gap = strategy == 0 || strategy >= 8 ? 0 : strategy <= 2 ? 2000 + r.below(6000) : strategy <= 4 ? 150 + r.below(900) : 3 + r.below(40);
     p.max_preemptions = 1 + r.below(64);
+    p.locale = r.below(2);
     int nk = bop_count();
     bool focus = r.below(3) == 0; unsigned fk1 = r.below((uint32_t)nk), fk2 = r.below((uint32_t)nk);
     p.programs.resize(n);
@@ -109,6 +111,9 @@ RunResult run_plan(const Plan &p, Totals *tot) {
     if (n < 1 || n > MAXT - 1) { rr.viol.set = true; rr.viol.cls = "internal"; rr.viol.msg = "bad thread count"; return rr; }
     simrt::fatal_context("prop=C20 i=%llu runseed=%llu site=setup", (unsigned long long)g_index, (unsigned long long)p.seed);
     simrt::heap_begin_run(simrt::HEAP_IMMEDIATE, 0xA5, 0xDD);
+    // configuration knob: the process locale.  C.UTF-8 formats and parses numbers exactly like "C" (digests are unaffected), but code that
+    // "pins" the locale around a libc call only does so when the current one is not "C".  (Every plan runs in its own forked child.)
+    if (p.locale) { if (!std::setlocale(LC_ALL, "C.UTF-8")) std::setlocale(LC_ALL, "C.utf8"); }
     Shared S; S.plan = &p;
     { simrt::SutScope sut; S.pool = pool_build(p.pool_seed); }
     S.digests.resize(n);
